@@ -55,32 +55,72 @@ def execute_guarded(engine, plan, keep_events=False):
                 'shape': '', 'nontrivial': False}
 
 
-def run_chunk(prop, verif_seed, tier, indices, timeout_s, want_plans=()):
+def run_in_child(fn, timeout_s):
+    """fork, run fn() in the child from this process's pristine post-import state, return its (picklable) result.
+    Every chunk / replay / shrink candidate starts from the same process state: numqi imported, nothing executed."""
+    import pickle
+    r, w = os.pipe()
+    sys.stdout.flush()
+    sys.stderr.flush()
+    pid = os.fork()
+    if pid == 0:
+        code = 0
+        try:
+            os.close(r)
+            faulthandler.dump_traceback_later(timeout_s, exit=True)
+            res = fn()
+            faulthandler.cancel_dump_traceback_later()
+            data = pickle.dumps(res)
+            with os.fdopen(w, 'wb') as f:
+                f.write(data)
+        except BaseException:
+            traceback.print_exc()
+            code = 3
+        finally:
+            os._exit(code)
+    os.close(w)
+    with os.fdopen(r, 'rb') as f:
+        data = f.read()
+    _, status = os.waitpid(pid, 0)
+    if not data:
+        raise RuntimeError(f'child process died without a result (wait status {status}; timeout {timeout_s}s or crash)')
+    return pickle.loads(data)
+
+
+def _prepare_parent(prop):
+    if prop == 'C10':
+        from simkit import pristine
+        pristine.client().ensure_started()  # children inherit the pipes; one child at a time talks to it
+
+
+def _chunk_body(prop, verif_seed, tier, indices, want_plans):
     from simkit import rng
     engine = load_engine(prop)
     out = []
+    done = []
     for i in indices:
-        faulthandler.dump_traceback_later(timeout_s, exit=True)
-        try:
-            plan = engine.generate(rng.run_seed(verif_seed, prop, tier, i), i, tier)
-            res = execute_guarded(engine, plan)
-        finally:
-            faulthandler.cancel_dump_traceback_later()
+        plan = engine.generate(rng.run_seed(verif_seed, prop, tier, i), i, tier)
+        res = execute_guarded(engine, plan)
         res['index'] = i
+        res['chunk_prefix'] = list(done)
         if i in want_plans:
             res['plan'] = plan
         out.append(res)
+        done.append(i)
     return out
 
 
-def run_plans(prop, plans, timeout_s):
+def run_chunk(prop, verif_seed, tier, indices, timeout_s, want_plans=()):
+    """one chunk = one forked child = one deterministic multi-run history starting from the pristine state"""
+    _prepare_parent(prop)
+    return run_in_child(lambda: _chunk_body(prop, verif_seed, tier, indices, want_plans), timeout_s * max(1, len(indices)))
+
+
+def execute_sequence(prop, plans, timeout_s, keep_events=False):
+    """executes plans one after the other in ONE fresh child (the last one is the run of interest)"""
+    _prepare_parent(prop)
     engine = load_engine(prop)
-    out = []
-    for plan in plans:
-        faulthandler.dump_traceback_later(timeout_s, exit=True)
-        try:
-            res = execute_guarded(engine, plan)
-        finally:
-            faulthandler.cancel_dump_traceback_later()
-        out.append(res)
-    return out
+
+    def body():
+        return [execute_guarded(engine, p, keep_events=(keep_events and j == len(plans) - 1)) for j, p in enumerate(plans)]
+    return run_in_child(body, timeout_s * max(1, len(plans)))
